@@ -6,7 +6,8 @@
     than an earlier one): Go's slices.SortFunc is not stable, and nothing
     here depends on stability.  [isort] (used by the evaluator) is one. *)
 From Coq Require Import ZArith NArith List Bool Permutation Sorted String.
-From AGH Require Import Base.Run Model.Rewrites Proofs.Rewrites Model.RewritesEdit Proofs.RewritesEdit.
+From AGH Require Import Base.Run Model.Rewrites Proofs.Rewrites Model.RewritesEdit Proofs.RewritesEdit
+  Proofs.RewritesShadow.
 Import ListNotations.
 
 Definition is_sort (sort : list entry -> list entry) : Prop :=
@@ -554,3 +555,86 @@ Theorem C06_edit_target_example :
   to_lower (bs "A.Test") <> bs "A.Test".
 Proof. exact EditExamples.target_with_capitals. Qed.
 Print Assumptions C06_edit_target_example.
+
+(** * Round 4: an exact entry shadows wildcard entries whatever its kind
+
+    [speaks_for e qt]: the entry takes part in answering a query of type
+    [qt]: a canonical name (every type); for A / AAAA an address or
+    exception of the requested family, or the "A" / "AAAA" exception of the
+    OTHER family ("pass A only": AGHTechDoc answers the other family with
+    the empty answer; matchesQType: "the entry is set to allow only the
+    other type").  The definition does not mention the model's matchesQType;
+    this is where the two are tied. *)
+Theorem C06_speaks_for_is_matchesQType :
+  forall e qt,
+    (is_cname e = true \/
+     (is_addr_q qt = true /\ (rtype_code (e_type e) = qt \/ e_ip e = None)))
+    <-> match_qtype e qt = true.
+Proof. exact speaks_for_spec. Qed.
+Print Assumptions C06_speaks_for_is_matchesQType.
+
+(** Every address in the answer comes from the most specific entry for the
+    finally resolved name among the entries that speak for the type: no
+    canonical-name entry covers that name, the source is an exact entry as
+    soon as ANY speaking exact entry exists (an "A" / "AAAA" exception of
+    either family included: the seeded change C06-H), and a wildcard source
+    is the longest speaking pattern. *)
+Theorem C06_exact_entry_shadows_wildcards_all_kinds :
+  forall sort, (forall l, Permutation (sort l) l) -> (forall l, sorted_by_compare (sort l)) ->
+  forall tbl host qt r i,
+    process_rewrites sort tbl host qt = Some r -> In i (r_ips r) ->
+    exists final,
+      (final = r_canon r \/ (r_canon r = [] /\ final = host)) /\
+      exists e, In e tbl /\ matches_host e final = true /\ e_ip e = Some i /\
+        rtype_code (e_type e) = qt /\ (qt = qA \/ qt = qAAAA) /\
+        forall x, In x tbl -> matches_host x final = true -> speaks_for x qt ->
+          is_cname x = false /\
+          (is_wildcard (e_dom x) = false -> is_wildcard (e_dom e) = false) /\
+          (is_wildcard (e_dom e) = true -> (length (e_dom x) <= length (e_dom e))%nat).
+Proof. exact exact_entry_shadows_wildcards_all_kinds. Qed.
+Print Assumptions C06_exact_entry_shadows_wildcards_all_kinds.
+
+Theorem C06_exact_entry_shadows_wildcards_check_host :
+  forall sort, (forall l, Permutation (sort l) l) -> (forall l, sorted_by_compare (sort l)) ->
+  forall enabled tbl host qt r i,
+    check_host sort enabled tbl host qt = Some r -> In i (r_ips r) ->
+    exists final, resolved_name (to_lower host) r final /\ from_most_specific tbl final qt i.
+Proof. exact check_host_exact_entry_shadows_wildcards. Qed.
+Print Assumptions C06_exact_entry_shadows_wildcards_check_host.
+
+(** The C06-H shape spelled out: an exact entry without an address that is
+    no canonical name (the "A" / "AAAA" exception of either family) for the
+    finally resolved name, and every answered address is the value of an
+    EXACT entry for that name. *)
+Theorem C06_exact_exception_shadows_wildcard_values :
+  forall sort, (forall l, Permutation (sort l) l) -> (forall l, sorted_by_compare (sort l)) ->
+  forall tbl host qt r i x,
+    process_rewrites sort tbl host qt = Some r -> In i (r_ips r) ->
+    exists final, resolved_name host r final /\
+      (In x tbl -> e_dom x = final -> is_wildcard final = false ->
+       is_cname x = false -> e_ip x = None ->
+       exists e, In e tbl /\ e_dom e = final /\ e_ip e = Some i /\ rtype_code (e_type e) = qt).
+Proof. exact exact_exception_shadows_wildcard_values. Qed.
+Print Assumptions C06_exact_exception_shadows_wildcard_values.
+
+(** A covered name for which no entry speaks for the requested type gets the
+    empty rewritten answer. *)
+Theorem C06_matched_nothing_speaks :
+  forall sort tbl host qt,
+    (exists e, In e tbl /\ matches_host e host = true) ->
+    (forall e, In e tbl -> matches_host e host = true -> ~ speaks_for e qt) ->
+    process_rewrites sort tbl host qt = Some rewritten_empty.
+Proof. exact matched_nothing_speaks. Qed.
+Print Assumptions C06_matched_nothing_speaks.
+
+(** The table of the seeded change C06-H and its variants, by computation:
+    `*.host4.example -> 1.2.3.4`, `sub.host4.example -> AAAA`. *)
+Theorem C06_seeded_H_examples :
+  let ask := DocExamples.ask in
+  ask ShadowExamples.tblH "sub.host4.example"%string qA = DocExamples.answer "" [] /\
+  ask ShadowExamples.tblH "sub.host4.example"%string qAAAA = DocExamples.upstream /\
+  ask ShadowExamples.tblH "my.host4.example"%string qA = DocExamples.answer "" [DocExamples.ip1234].
+Proof.
+  exact (conj ShadowExamples.seeded_H_a (conj ShadowExamples.seeded_H_aaaa ShadowExamples.seeded_H_other)).
+Qed.
+Print Assumptions C06_seeded_H_examples.
